@@ -30,10 +30,21 @@ ASSUMPTIONS = [
 F = rel("data_msg")
 
 
+_CONST = [None]        # folding of class constants inside encoder expressions (set per class by the caller)
+
+
 def classify_enc(expr):
     """-> ('field', name, neg) | ('bits', [(field, shift, width)]) | ('call', text)"""
     if isinstance(expr, ast.Attribute) and isinstance(expr.value, ast.Name) and expr.value.id == "self":
         return ("field", expr.attr, False)
+    # `x & 0xff` of a whole-octet value is the value itself on the wire (an octet cannot hold more)
+    if isinstance(expr, ast.BinOp) and isinstance(expr.op, ast.BitAnd):
+        for a_, b_ in ((expr.left, expr.right), (expr.right, expr.left)):
+            mv = b_.value if isinstance(b_, ast.Constant) else (_CONST[0](b_) if _CONST[0] else None)
+            if mv == 0xff:
+                inner = classify_enc(a_)
+                if inner[0] == "field":
+                    return inner
     if isinstance(expr, ast.UnaryOp) and isinstance(expr.op, ast.USub):
         inner = classify_enc(expr.operand)
         if inner[0] == "field":
@@ -41,7 +52,7 @@ def classify_enc(expr):
     if isinstance(expr, ast.Call):
         return ("call", canon(expr))
     try:
-        t = X.PyLower().lower(expr)
+        t = X.PyLower(const=_CONST[0]).lower(expr)
         bf = bitfields(t)
     except AnalysisError:
         return ("other", canon(expr))
@@ -109,6 +120,17 @@ def r1_r2(L, repo):
             fn = "%s v%d" % (cls, ver)
             L.fn(F, cls + ".gen_msg")
             L.fn(F, cls + ".parse_msg")
+            def _k(e_, ci=ci):
+                # upper-case class constants (masks, limits) fold to their integer value
+                if any(isinstance(x, ast.Attribute) and isinstance(x.value, ast.Name) and x.value.id in ("self", "cls") and not x.attr.isupper()
+                       for x in ast.walk(e_)) or any(isinstance(x, ast.Name) and x.id not in ("self", "cls") and not x.id.isupper() for x in ast.walk(e_)):
+                    return None
+                try:
+                    v_ = Ev(repo, mod, self_cls=ci).ev(e_)
+                    return v_ if isinstance(v_, int) and not isinstance(v_, bool) else None
+                except (Unknown, Raised, RecursionError):
+                    return None
+            _CONST[0] = _k
             enc = Enc(repo, ci, ver, True, False)
             segs = enc.run()
             dec = Dec(repo, ci, ver, True)
@@ -252,9 +274,15 @@ def r3_tables(L, repo):
             t = Ev(repo, mod, self_cls=ci).ev(v)
         except (Unknown, Raised) as e:
             raise AnalysisError("table %s does not fold: %s" % (name, e))
-        if not isinstance(t, list) or len(t) != 256:
-            raise AnalysisError("table %s has no 256 entries" % name)
-        tabs[name] = t
+        if isinstance(t, (bytes, bytearray)):
+            t = list(t)
+        if not isinstance(t, list) or len(t) != 256 or not all(isinstance(x, int) and -128 <= x <= 255 for x in t):
+            raise AnalysisError("table %s has no 256 octet entries" % name)
+        # a translate() table acts through its octets; the signed tables are read back through array('b'), i.e. as
+        # two's complement - whether the table was written with signed entries or with their octet values
+        octs = [x & 0xff for x in t]
+        signed = name in ("_tab_usbit2sbit", "_tab_ubit2sbit")
+        tabs[name] = [(o - 256 if o >= 128 else o) for o in octs] if signed else octs
     us2s, s2us, s2u, u2s = (tabs[n] for n in ("_tab_usbit2sbit", "_tab_sbit2usbit", "_tab_sbit2ubit", "_tab_ubit2sbit"))
     # index of a signed soft bit s in a translate table = its octet value (s & 0xff)
     bad = [s for s in range(-127, 128) if us2s[s2us[s & 0xff]] != s]
